@@ -1,12 +1,30 @@
-(** [tryBackup] / [backupDirs] and the simple mutating operations keep the
+(** [tryBackup] / [backupDirs] and the covered operations keep the
     transaction invariant [Inv] of Spec/Inv.v.  Proved from the abstract
-    filesystem laws (Spec/Laws.v) alone.
+    filesystem laws (Spec/Laws.v; for the operations forwarded without backup
+    and for the walk of RemoveAll also Spec/Laws2.v on the base side) alone.
 
     Main results: [try_backup_spec] ([try_backup_stmt] of Spec/CopySpecs.v)
     and [step_spec] ([step_stmt]), exactly as stated there.  The section
-    lemmas [try_backup_specS] and [step_specS] say a little more: when no
-    proper ancestor of the path is a non-directory, [try_backup] succeeds and
-    the path and its ancestors end up tracked. *)
+    lemma [try_backup_specS] says a little more: when no proper ancestor of
+    the path is a non-directory, [try_backup] succeeds and the path and its
+    ancestors end up tracked.
+
+    How the operations of [covered] are handled ([step_specS]):
+    - Create, OpenFile with a non-zero flag (+ write/close through the
+      handle), Mkdir, Remove, Symlink, Chmod, Chown, Lchown, Chtimes: resolve,
+      [try_backup], one base call framed at the (now tracked) name
+      ([guarded_spec], [handle_op_spec], [unit_op_spec]);
+    - MkdirAll: the same with the frame [cands n]: [try_backup] tracks the name
+      and *every* ancestor, the missing ones as "did not exist"
+      ([backup_required] records them), so directories created on the way are
+      removed again by Rollback;
+    - Rename: both names backed up, frame at the two names ([rename_op_spec]);
+    - RemoveAll: [removeall_spec]; every Remove it issues ends in a state
+      that satisfies the invariant outright ([remove_strong], from the precise
+      laws of Remove), the walk only reads in between ([walk_spec]);
+    - Stat, Lstat, Readlink, OpenFile with flags 0 (+ read / Readdirnames /
+      attempted write, close): nothing is backed up and the base view does
+      not change ([ro_call_spec], [ro_handle_op_spec], [ro_open_write_spec]). *)
 From stdpp Require Import gmap.
 From BFS Require Import Spec.CopySpecs.
 From BFS Require Import Path.PathSpec.
@@ -1038,21 +1056,70 @@ Section Try.
   Qed.
 
   (* ---------------------------------------------------------------- *)
-  (** * The simple operations *)
+  (** * The covered operations *)
 
-  (** a base call that touches at most the tracked path [n] *)
-  Lemma Inv_base_frame (w w' : world) (n : str) :
-    Inv Vb Vk B0 w -> same_rest Vk w w' -> swf (Vb w') -> store_eqv_except [n] (Vb w') (Vb w) ->
-    tracked w n -> kind_stable Vb w' -> Inv Vb Vk B0 w'.
+  Hypothesis HLb2 : base_laws2 base Vb Vk tnb accb rhb whb.
+  Let Lb2 : api_laws2 base Vb Vk tnb accb rhb whb := HLb2.
+
+  (** ** frames on the base *)
+
+  (** a stretch of base calls that changed the base view at most at [l] *)
+  Definition fr (w w' : world) (l : list str) : Prop :=
+    same_rest Vk w w' /\ swf (Vb w') /\ store_eqv_except l (Vb w') (Vb w).
+
+  Lemma fr_trans (w w1 w2 : world) (l : list str) : fr w w1 l -> fr w1 w2 l -> fr w w2 l.
   Proof.
-    intros HI Hsr Hwf Heqv Htn [Hks1 Hks2]. pose proof Hsr as (HVk & Hi & Hc & Hf).
+    intros (Hs1 & _ & He1) (Hs2 & Hw2 & He2). split; [| split].
+    - eapply same_rest_trans; eassumption.
+    - exact Hw2.
+    - eapply store_eqv_except_trans; eassumption.
+  Qed.
+
+  Lemma fr_quiet (w w' : world) (l : list str) : quiet w -> fr w w' l -> quiet w'.
+  Proof. intros Hq (Hs & _). exact (quiet_same_rest Vk w w' Hq Hs). Qed.
+
+  Lemma fr_infos (w w' : world) (l : list str) : fr w w' l -> w_infos w' = w_infos w.
+  Proof. intros ((_ & Hi & _) & _). exact Hi. Qed.
+
+  Lemma fr_refl (w : world) (l : list str) : swf (Vb w) -> fr w w l.
+  Proof.
+    intros Hwf. split; [apply same_rest_refl | split; [exact Hwf | apply store_eqv_except_refl]].
+  Qed.
+
+  Lemma fr_same (w w' : world) (l : list str) :
+    swf (Vb w) -> Vb w' = Vb w -> same_rest Vk w w' -> fr w w' l.
+  Proof.
+    intros Hwf HV Hs. split; [exact Hs |]. rewrite HV. split; [exact Hwf | apply store_eqv_except_refl].
+  Qed.
+
+  Lemma framed_fr {A} (m : M A) (w : world) (l : list str) :
+    framed Vb Vk m w l -> exists r w', m w = (r, w') /\ r <> MHalt /\ fr w w' l.
+  Proof.
+    intros (r & w' & Hrun & Hnh & Hs & Hwf & He). exists r, w'.
+    split; [exact Hrun | split; [exact Hnh | split; [exact Hs | split; assumption]]].
+  Qed.
+
+  Lemma try_framed {A} (m : M A) (w : world) (l : list str) :
+    framed Vb Vk m w l -> exists x w', try_ m w = (MOk x, w') /\ fr w w' l.
+  Proof.
+    intros Hf. destruct (framed_fr m w l Hf) as (r & w' & Hrun & Hnh & Hfr).
+    destruct r as [a | e |]; [| | contradiction Hnh; reflexivity].
+    - exists (Ok a), w'. split; [exact (try_ok m w w' a Hrun) | exact Hfr].
+    - exists (Err e), w'. split; [exact (try_err m w w' e Hrun) | exact Hfr].
+  Qed.
+
+  (** base calls that touch at most the tracked paths [l] *)
+  Lemma Inv_base_frame (w w' : world) (l : list str) :
+    Inv Vb Vk B0 w -> fr w w' l -> Forall (tracked w) l -> kind_stable Vb w' -> Inv Vb Vk B0 w'.
+  Proof.
+    intros HI (Hsr & Hwf & Heqv) Htl [Hks1 Hks2]. pose proof Hsr as (HVk & Hi & Hc & Hf).
     constructor.
     - exact (quiet_same_rest Vk w w' (inv_quiet _ _ _ _ HI) Hsr).
     - exact Hwf.
     - rewrite HVk. exact (inv_wf_k _ _ _ _ HI).
     - intros q Hq. rewrite Hi in Hq.
       eapply sonode_eqv_trans; [| exact (inv_untracked _ _ _ _ HI q Hq)].
-      apply Heqv. intros [E | []]. subst q. contradiction.
+      apply Heqv. intros Hin. rewrite List.Forall_forall in Htl. exact (Htl q Hin Hq).
     - intros q Hq. rewrite Hi in Hq. exact (inv_none _ _ _ _ HI q Hq).
     - intros q fi Hq. rewrite Hi in Hq. rewrite HVk. exact (inv_some _ _ _ _ HI q fi Hq).
     - intros q Hq. unfold tracked in Hq. rewrite Hi in Hq. exact (inv_abs _ _ _ _ HI q Hq).
@@ -1062,28 +1129,91 @@ Section Try.
     - exact Hks1.
   Qed.
 
-  Lemma ext_infos_ext (w w2 w' : world) (l : list str) :
-    ext Vb w w2 l -> w_infos w' = w_infos w2 -> infos_ext w w' l.
-  Proof. intros (_ & Hm & Hd) Hi. unfold infos_ext. rewrite Hi. split; assumption. Qed.
+  (** ** what every covered operation guarantees *)
 
-  (** resolve, back up, one call on the base *)
+  (** no halt; the invariant holds again if no tracked path changed its type;
+      bookkeeping is only added, and only at paths satisfying [P] *)
+  Definition keeps {A} (P : str -> Prop) (w : world) (r : mres A) (w' : world) : Prop :=
+    r <> MHalt /\ (kind_stable Vb w' -> Inv Vb Vk B0 w') /\ infos_ext_in w w' P.
+
+  Lemma keeps_weaken {A} (P Q : str -> Prop) (w : world) (r : mres A) (w' : world) :
+    (forall q, P q -> Q q) -> keeps P w r w' -> keeps Q w r w'.
+  Proof.
+    intros HPQ (Hnh & Hinv & Hm & Hd). split; [exact Hnh | split; [exact Hinv | split; [exact Hm |]]].
+    intros q Hq. destruct (Hd q Hq) as [H | H]; [left; exact H | right; exact (HPQ q H)].
+  Qed.
+
+  (** backing up took [w] to [w2] (invariant kept, bookkeeping added inside
+      [l]), then base calls touched at most the tracked paths [lt] *)
+  Lemma keeps_frame {A} (P : str -> Prop) (w w2 w' : world) (r : mres A) (l lt : list str) :
+    r <> MHalt -> Inv Vb Vk B0 w2 -> ext Vb w w2 l -> (forall q, In q l -> P q) ->
+    fr w2 w' lt -> Forall (tracked w2) lt -> keeps P w r w'.
+  Proof.
+    intros Hnh HI2 (_ & Hm & Hd) HP Hfr Htl. split; [exact Hnh | split].
+    - intros Hks. exact (Inv_base_frame w2 w' lt HI2 Hfr Htl Hks).
+    - unfold infos_ext_in. rewrite (fr_infos w2 w' lt Hfr). split; [exact Hm |].
+      intros q Hq. destruct (Hd q Hq) as [H | H]; [left; exact H | right; exact (HP q H)].
+  Qed.
+
+  (** the operation ended in a state that satisfies the invariant outright *)
+  Lemma keeps_inv {A} (P : str -> Prop) (w w2 : world) (r : mres A) (l : list str) :
+    r <> MHalt -> Inv Vb Vk B0 w2 -> ext Vb w w2 l -> (forall q, In q l -> P q) -> keeps P w r w2.
+  Proof.
+    intros Hnh HI2 Hext HP.
+    exact (keeps_frame P w w2 w2 r l [] Hnh HI2 Hext HP (fr_refl w2 [] (inv_wf_b _ _ _ _ HI2)) (Forall_nil _)).
+  Qed.
+
+  (** the operation began after calls that changed nothing *)
+  Lemma keeps_pre {A} (P : str -> Prop) (w w1 w' : world) (r : mres A) :
+    same_all w w1 -> keeps P w1 r w' -> keeps P w r w'.
+  Proof.
+    intros (_ & _ & Hi & _) (Hnh & Hinv & Hm & Hd). unfold keeps, infos_ext_in.
+    rewrite Hi in Hm, Hd. split; [exact Hnh | split; [exact Hinv | split; assumption]].
+  Qed.
+
+  (** the result is turned into an observation *)
+  Lemma keeps_map {A B} (P : str -> Prop) (m : M A) (f : A -> B) (w0 w w' : world) (r : mres A) :
+    m w = (r, w') -> keeps P w0 r w' ->
+    exists r', (x <- m ;; ret (f x)) w = (r', w') /\ keeps P w0 r' w'.
+  Proof.
+    intros Hrun (Hnh & Hinv & Hext).
+    destruct r as [a | e |]; [| | contradiction Hnh; reflexivity].
+    - exists (MOk (f a)). split; [rewrite (bind_ok _ _ w w' a Hrun); reflexivity |].
+      split; [discriminate | split; assumption].
+    - exists (MErr e). split; [rewrite (bind_err _ _ w w' e Hrun); reflexivity |].
+      split; [discriminate | split; assumption].
+  Qed.
+
+  Lemma keeps_map_ex {A B} (P : str -> Prop) (m : M A) (f : A -> B) (w : world) :
+    (exists r w', m w = (r, w') /\ keeps P w r w') ->
+    exists r' w', (x <- m ;; ret (f x)) w = (r', w') /\ keeps P w r' w'.
+  Proof.
+    intros (r & w' & Hrun & Hk). destruct (keeps_map P m f w w w' r Hrun Hk) as (r' & Hrun' & Hk').
+    exists r', w'. split; assumption.
+  Qed.
+
+  (** ** resolve, back up, one call on the base *)
   Definition guarded {A} (name : str) (call : str -> M A) : M A :=
     rn <- real_path base name ;; try_backup base backup rn ;;; call rn.
 
   Definition all_dirs (w : world) (n : str) : Prop :=
     forall q m, In q (ancestors n) -> Vb w !! q = Some m -> node_kind m = KDir.
 
-  Lemma guarded_spec {A} (call : str -> M A) (w : world) (n : str) :
-    Inv Vb Vk B0 w -> snolinkpar (Vb w) n ->
-    (forall w2, quiet w2 -> swf (Vb w2) -> Vb w2 = Vb w -> framed Vb Vk (call n) w2 [n]) ->
+  Lemma self_in_cands (n : str) : cleaned n -> In n (cands n).
+  Proof. intros Hc. rewrite (cands_last n Hc). apply in_or_app. right. left. reflexivity. Qed.
+
+  (** the call may touch [l], which lies on the chain from the root to [n]:
+      after a successful [try_backup] that chain is tracked *)
+  Lemma guarded_spec {A} (call : str -> M A) (w : world) (n : str) (l : list str) :
+    Inv Vb Vk B0 w -> snolinkpar (Vb w) n -> incl l (cands n) ->
+    (forall w2, quiet w2 -> swf (Vb w2) -> Vb w2 = Vb w -> framed Vb Vk (call n) w2 l) ->
     exists r w' w2, guarded n call w = (r, w') /\ r <> MHalt /\ Inv Vb Vk B0 w2 /\
       ext Vb w w2 (cands n) /\ w_infos w' = w_infos w2 /\
       (all_dirs w n -> tracked w2 n /\ Forall (tracked w2) (ancestors n)) /\
       (((exists e, r = MErr e) /\ w' = w2) \/
-       (tracked w2 n /\ call n w2 = (r, w') /\ same_rest Vk w2 w' /\ swf (Vb w') /\
-        store_eqv_except [n] (Vb w') (Vb w2))).
+       (Forall (tracked w2) l /\ call n w2 = (r, w') /\ fr w2 w' l)).
   Proof.
-    intros HI Hnlp Hframe. unfold guarded.
+    intros HI Hnlp Hincl Hframe. unfold guarded. pose proof Hnlp as [[Hc _] _].
     destruct (real_path_resolved_spec base Vb Vk tnb accb rhb whb Lb w n
                 (inv_quiet _ _ _ _ HI) (inv_wf_b _ _ _ _ HI) Hnlp) as (w1 & Hrun1 & HVb1 & Hsr1).
     pose proof (same_all_base w w1 HVb1 Hsr1) as Hsa1.
@@ -1097,121 +1227,727 @@ Section Try.
     { intros Hd. apply Htr2. apply Hok2. intros q m Hq Hm. rewrite HVb1 in Hm. exact (Hd q m Hq Hm). }
     rewrite (bind_ok _ _ w w1 n Hrun1).
     destruct r2 as [[] | e |]; [| | contradiction Hnh2; reflexivity].
-    - destruct (Htr2 eq_refl) as [Htn _].
+    - destruct (Htr2 eq_refl) as [Htn Hanc].
+      assert (Hall : Forall (tracked w2) (cands n)).
+      { rewrite (cands_last n Hc). apply Forall_app. split; [exact Hanc |].
+        constructor; [exact Htn | constructor]. }
+      assert (Htl : Forall (tracked w2) l).
+      { apply List.Forall_forall. intros q Hq. rewrite List.Forall_forall in Hall.
+        exact (Hall q (Hincl q Hq)). }
       pose proof Hext as (HVb2 & _ & _).
-      destruct (Hframe w2 (inv_quiet _ _ _ _ HI2) (inv_wf_b _ _ _ _ HI2) HVb2)
-        as (r3 & w3 & Hrun3 & Hnh3 & Hsr3 & Hwf3 & Heqv3).
+      destruct (framed_fr _ _ _ (Hframe w2 (inv_quiet _ _ _ _ HI2) (inv_wf_b _ _ _ _ HI2) HVb2))
+        as (r3 & w3 & Hrun3 & Hnh3 & Hfr3).
       exists r3, w3, w2. split; [rewrite (bind_ok _ _ w1 w2 tt Hrun2); exact Hrun3 |].
       split; [exact Hnh3 |]. split; [exact HI2 |]. split; [exact Hext |].
-      split; [exact (proj1 (proj2 Hsr3)) |]. split; [exact Hdirs |]. right.
-      split; [exact Htn |]. split; [exact Hrun3 |]. split; [exact Hsr3 |]. split; assumption.
+      split; [exact (fr_infos w2 w3 l Hfr3) |]. split; [exact Hdirs |]. right.
+      split; [exact Htl |]. split; [exact Hrun3 | exact Hfr3].
     - exists (MErr e), w2, w2. split; [rewrite (bind_err _ _ w1 w2 e Hrun2); reflexivity |].
       split; [discriminate |]. split; [exact HI2 |]. split; [exact Hext |].
       split; [reflexivity |]. split; [exact Hdirs |]. left. split; [exists e; reflexivity | reflexivity].
   Qed.
 
-  Definition step_post (o : op) (w : world) (r : mres obs) (w' : world) : Prop :=
-    r <> MHalt /\ (kind_stable Vb w' -> Inv Vb Vk B0 w') /\ infos_ext w w' (cands (op_name o)) /\
-    (all_dirs w (op_name o) ->
-     tracked w' (op_name o) /\ Forall (tracked w') (ancestors (op_name o))).
-
-  Lemma unit_op_spec (call : str -> M unit) (w : world) (n : str) :
-    Inv Vb Vk B0 w -> snolinkpar (Vb w) n ->
-    (forall w2, quiet w2 -> swf (Vb w2) -> Vb w2 = Vb w -> framed Vb Vk (call n) w2 [n]) ->
-    exists r w', (guarded n call ;;; ret ObUnit) w = (r, w') /\
-      r <> MHalt /\ (kind_stable Vb w' -> Inv Vb Vk B0 w') /\ infos_ext w w' (cands n) /\
-      (all_dirs w n -> tracked w' n /\ Forall (tracked w') (ancestors n)).
+  Lemma guarded_keeps {A} (call : str -> M A) (w : world) (n : str) (l : list str) :
+    Inv Vb Vk B0 w -> snolinkpar (Vb w) n -> incl l (cands n) ->
+    (forall w2, quiet w2 -> swf (Vb w2) -> Vb w2 = Vb w -> framed Vb Vk (call n) w2 l) ->
+    exists r w', guarded n call w = (r, w') /\ keeps (fun q => In q (cands n)) w r w'.
   Proof.
-    intros HI Hnlp Hframe.
-    destruct (guarded_spec call w n HI Hnlp Hframe)
-      as (r & w' & w2 & Hrun & Hnh & HI2 & Hext & Hi & Hdirs & Hcase).
-    assert (Hdirs' : all_dirs w n -> tracked w' n /\ Forall (tracked w') (ancestors n)).
-    { intros Hd. unfold tracked. rewrite Hi. exact (Hdirs Hd). }
-    assert (Hinv : kind_stable Vb w' -> Inv Vb Vk B0 w').
-    { intros Hks. destruct Hcase as [[_ ->] | (Htn & _ & Hsr & Hwf & Heqv)]; [exact HI2 |].
-      exact (Inv_base_frame w2 w' n HI2 Hsr Hwf Heqv Htn Hks). }
-    destruct r as [[] | e |]; [| | contradiction Hnh; reflexivity].
-    - exists (MOk ObUnit), w'. split; [rewrite (bind_ok _ _ w w' tt Hrun); reflexivity |].
-      split; [discriminate |]. split; [exact Hinv |]. split; [exact (ext_infos_ext w w2 w' _ Hext Hi) | exact Hdirs'].
-    - exists (MErr e), w'. split; [rewrite (bind_err _ _ w w' e Hrun); reflexivity |].
-      split; [discriminate |]. split; [exact Hinv |]. split; [exact (ext_infos_ext w w2 w' _ Hext Hi) | exact Hdirs'].
+    intros HI Hnlp Hincl Hframe.
+    destruct (guarded_spec call w n l HI Hnlp Hincl Hframe)
+      as (r & w' & w2 & Hrun & Hnh & HI2 & Hext & _ & _ & Hcase).
+    exists r, w'. split; [exact Hrun |].
+    destruct Hcase as [[_ ->] | (Htl & _ & Hfr)].
+    - exact (keeps_inv _ w w2 r (cands n) Hnh HI2 Hext (fun q Hq => Hq)).
+    - exact (keeps_frame _ w w2 w' r (cands n) l Hnh HI2 Hext (fun q Hq => Hq) Hfr Htl).
   Qed.
 
-  Lemma create_op_spec (w : world) (n : str) (d : list N) :
-    Inv Vb Vk B0 w -> snolinkpar (Vb w) n -> snotlink (Vb w) n ->
-    exists r w', (h <- guarded n (a_create base) ;; write_close h d ;;; ret ObUnit) w = (r, w') /\
-      r <> MHalt /\ (kind_stable Vb w' -> Inv Vb Vk B0 w') /\ infos_ext w w' (cands n) /\
-      (all_dirs w n -> tracked w' n /\ Forall (tracked w') (ancestors n)).
+  Lemma incl_self_cands (n : str) : cleaned n -> incl [n] (cands n).
+  Proof. intros Hc q [<- | []]. exact (self_in_cands n Hc). Qed.
+
+  (** a unit operation on the resolved name *)
+  Lemma unit_op_spec (call : str -> M unit) (w : world) (n : str) (l : list str) :
+    Inv Vb Vk B0 w -> snolinkpar (Vb w) n -> incl l (cands n) ->
+    (forall w2, quiet w2 -> swf (Vb w2) -> Vb w2 = Vb w -> framed Vb Vk (call n) w2 l) ->
+    exists r w', (guarded n call ;;; ret ObUnit) w = (r, w') /\ keeps (fun q => In q (cands n)) w r w'.
   Proof.
-    intros HI Hnlp Hnl.
-    destruct (guarded_spec (a_create base) w n HI Hnlp)
-      as (r & w' & w2 & Hrun & Hnh & HI2 & Hext & Hi & Hdirs & Hcase).
-    { intros w2 Hq2 Hwf2 HVb2. apply (law_user_create _ _ _ _ _ _ _ Lb w2 n Hq2 Hwf2); rewrite HVb2; assumption. }
+    intros HI Hnlp Hincl Hframe.
+    exact (keeps_map_ex _ (guarded n call) (fun _ => ObUnit) w (guarded_keeps call w n l HI Hnlp Hincl Hframe)).
+  Qed.
+
+  (** Create, OpenFile with a writing flag: the handle is written and closed *)
+  Lemma handle_op_spec (call : str -> M fhandle) (w : world) (n : str) (d : list N) :
+    Inv Vb Vk B0 w -> snolinkpar (Vb w) n -> snotlink (Vb w) n ->
+    (forall w2, quiet w2 -> swf (Vb w2) -> Vb w2 = Vb w -> framed Vb Vk (call n) w2 [n]) ->
+    (forall w2 r w', call n w2 = (r, w') ->
+       (exists fl perm, a_openfile base n fl perm w2 = (r, w')) \/ a_create base n w2 = (r, w')) ->
+    exists r w', (h <- guarded n call ;; write_close h d ;;; ret ObUnit) w = (r, w') /\
+                 keeps (fun q => In q (cands n)) w r w'.
+  Proof.
+    intros HI Hnlp Hnl Hframe Hwhich. pose proof Hnlp as [[Hc _] _].
+    destruct (guarded_spec call w n [n] HI Hnlp (incl_self_cands n Hc) Hframe)
+      as (r & w' & w2 & Hrun & Hnh & HI2 & Hext & Hi & _ & Hcase).
     pose proof Hext as (HVb2 & _ & _).
-    destruct Hcase as [[[e ->] ->] | (Htn & Hcall & Hsr & Hwf & Heqv)].
+    destruct Hcase as [[[e ->] ->] | (Htl & Hcall & Hfr)].
     { exists (MErr e), w2. split; [rewrite (bind_err _ _ w w2 e Hrun); reflexivity |].
-      split; [discriminate |]. split; [intros _; exact HI2 |].
-      split; [exact (ext_infos_ext w w2 w2 _ Hext eq_refl) | exact Hdirs]. }
-    assert (Hdirs' : all_dirs w n -> tracked w' n /\ Forall (tracked w') (ancestors n)).
-    { intros Hd. unfold tracked. rewrite Hi. exact (Hdirs Hd). }
+      apply (keeps_inv _ w w2 (MErr e) (cands n)); [discriminate | exact HI2 | exact Hext | exact (fun q Hq => Hq)]. }
     destruct r as [h | e |]; [| | contradiction Hnh; reflexivity].
     2:{ exists (MErr e), w'. split; [rewrite (bind_err _ _ w w' e Hrun); reflexivity |].
-        split; [discriminate |].
-        split; [intros Hks; exact (Inv_base_frame w2 w' n HI2 Hsr Hwf Heqv Htn Hks) |].
-        split; [exact (ext_infos_ext w w2 w' _ Hext Hi) | exact Hdirs']. }
+        apply (keeps_frame _ w w2 w' (MErr e) (cands n) [n]);
+          [discriminate | exact HI2 | exact Hext | exact (fun q Hq => Hq) | exact Hfr | exact Htl]. }
     assert (Hnlp2 : snolinkpar (Vb w2) n) by (rewrite HVb2; exact Hnlp).
     assert (Hnl2 : snotlink (Vb w2) n) by (rewrite HVb2; exact Hnl).
-    destruct (law_user_handle _ _ _ _ _ _ _ Lb w2 n (MOk h) w' (inv_quiet _ _ _ _ HI2) (inv_wf_b _ _ _ _ HI2)
-                Hnlp2 Hnl2 (or_intror Hcall) h d eq_refl
-                (quiet_same_rest Vk w2 w' (inv_quiet _ _ _ _ HI2) Hsr) Hwf)
-      as (r4 & w4 & Hrun4 & Hnh4 & Hsr4 & Hwf4 & Heqv4).
-    assert (Hi4 : w_infos w4 = w_infos w2).
-    { rewrite (proj1 (proj2 Hsr4)). exact Hi. }
-    assert (Hinv : kind_stable Vb w4 -> Inv Vb Vk B0 w4).
-    { intros Hks. apply (Inv_base_frame w2 w4 n HI2); [| exact Hwf4 | | exact Htn | exact Hks].
-      - eapply same_rest_trans; eassumption.
-      - eapply store_eqv_except_trans; eassumption. }
-    assert (Hdirs4 : all_dirs w n -> tracked w4 n /\ Forall (tracked w4) (ancestors n)).
-    { intros Hd. unfold tracked. rewrite Hi4. exact (Hdirs Hd). }
+    pose proof Hfr as (_ & Hwf' & _).
+    destruct (framed_fr _ _ _
+                (law_user_handle _ _ _ _ _ _ _ Lb w2 n (MOk h) w' (inv_quiet _ _ _ _ HI2) (inv_wf_b _ _ _ _ HI2)
+                   Hnlp2 Hnl2 (Hwhich w2 (MOk h) w' Hcall) h d eq_refl
+                   (fr_quiet w2 w' [n] (inv_quiet _ _ _ _ HI2) Hfr) Hwf'))
+      as (r4 & w4 & Hrun4 & Hnh4 & Hfr4).
+    pose proof (fr_trans w2 w' w4 [n] Hfr Hfr4) as Hfr24.
     rewrite (bind_ok _ _ w w' h Hrun).
-    destruct r4 as [[] | e |]; [| | contradiction Hnh4; reflexivity].
-    - exists (MOk ObUnit), w4. split; [rewrite (bind_ok _ _ w' w4 tt Hrun4); reflexivity |].
-      split; [discriminate |]. split; [exact Hinv |].
-      split; [exact (ext_infos_ext w w2 w4 _ Hext Hi4) | exact Hdirs4].
-    - exists (MErr e), w4. split; [rewrite (bind_err _ _ w' w4 e Hrun4); reflexivity |].
-      split; [discriminate |]. split; [exact Hinv |].
-      split; [exact (ext_infos_ext w w2 w4 _ Hext Hi4) | exact Hdirs4].
+    destruct (keeps_map (fun q => In q (cands n)) (write_close h d) (fun _ => ObUnit) w w' w4 r4 Hrun4
+                (keeps_frame _ w w2 w4 r4 (cands n) [n] Hnh4 HI2 Hext (fun q Hq => Hq) Hfr24 Htl))
+      as (r5 & Hrun5 & Hk5).
+    exists r5, w4. split; [exact Hrun5 | exact Hk5].
   Qed.
 
-  (** every simple operation keeps the invariant *)
+  (** ** operations forwarded to the base without backup *)
+
+  (** a call that leaves the base view alone *)
+  Lemma ro_keeps {A} (P : str -> Prop) (w w' : world) (r : mres A) :
+    Inv Vb Vk B0 w -> r <> MHalt -> fr w w' [] -> keeps P w r w'.
+  Proof.
+    intros HI Hnh Hfr.
+    apply (keeps_frame P w w w' r [] []); [exact Hnh | exact HI | apply ext_refl | | exact Hfr | constructor].
+    intros q [].
+  Qed.
+
+  Lemma ro_call_spec {A} (m : M A) (w : world) :
+    Inv Vb Vk B0 w -> framed Vb Vk m w [] ->
+    exists r w', m w = (r, w') /\ keeps (fun _ => False) w r w'.
+  Proof.
+    intros HI Hf. destruct (framed_fr m w [] Hf) as (r & w' & Hrun & Hnh & Hfr).
+    exists r, w'. split; [exact Hrun | exact (ro_keeps _ w w' r HI Hnh Hfr)].
+  Qed.
+
+  Lemma lstat_framed (w : world) (n : str) :
+    quiet w -> swf (Vb w) -> snolinkpar (Vb w) n -> framed Vb Vk (a_lstat base n) w [].
+  Proof.
+    intros Hq Hwf Hnlp. destruct (Vb w !! n) as [nd|] eqn:Hb.
+    - destruct (law_lstat_some _ _ _ _ _ _ _ Lb w n nd Hq Hwf Hnlp Hb) as (fi & (w1 & Hrun & HV & Hsr) & _).
+      exists (MOk fi), w1. split; [exact Hrun |]. split; [discriminate |]. split; [exact Hsr |].
+      rewrite HV. split; [exact Hwf | apply store_eqv_except_refl].
+    - destruct (law_lstat_none _ _ _ _ _ _ _ Lb w n Hq Hwf Hnlp Hb) as (e & w1 & Hrun & _ & HV & Hsr).
+      exists (MErr e), w1. split; [exact Hrun |]. split; [discriminate |]. split; [exact Hsr |].
+      rewrite HV. split; [exact Hwf | apply store_eqv_except_refl].
+  Qed.
+
+  (** OpenFile with flags 0, then an attempt to write *)
+  Lemma ro_open_write_spec (w : world) (n : str) (d : list N) :
+    Inv Vb Vk B0 w -> snolinkpar (Vb w) n ->
+    exists r w', (h <- a_openfile base n 0 0 ;; write_close h d ;;; ret ObUnit) w = (r, w') /\
+                 keeps (fun _ => False) w r w'.
+  Proof.
+    intros HI Hnlp. pose proof (inv_quiet _ _ _ _ HI) as Hq. pose proof (inv_wf_b _ _ _ _ HI) as Hwf.
+    destruct (framed_fr _ w [] (law2_open_ro _ _ _ _ _ _ _ Lb2 w n Hq Hwf Hnlp))
+      as (r1 & w1 & Hrun1 & Hnh1 & Hfr1).
+    destruct r1 as [h | e |]; [| | contradiction Hnh1; reflexivity].
+    2:{ exists (MErr e), w1. split; [rewrite (bind_err _ _ w w1 e Hrun1); reflexivity |].
+        apply (ro_keeps _ w w1 (MErr e) HI); [discriminate | exact Hfr1]. }
+    pose proof (fr_quiet w w1 [] Hq Hfr1) as Hq1. pose proof Hfr1 as (_ & Hwf1 & _).
+    destruct (law2_ro_handle _ _ _ _ _ _ _ Lb2 w n h w1 Hq Hwf Hnlp Hrun1 w1 Hq1 Hwf1) as (_ & _ & _ & Hwr).
+    destruct (framed_fr _ w1 [] (Hwr d)) as (r2 & w2 & Hrun2 & Hnh2 & Hfr2).
+    rewrite (bind_ok _ _ w w1 h Hrun1).
+    destruct (keeps_map (fun _ => False) (write_close h d) (fun _ => ObUnit) w w1 w2 r2 Hrun2
+                (ro_keeps _ w w2 r2 HI Hnh2 (fr_trans w w1 w2 [] Hfr1 Hfr2))) as (r3 & Hrun3 & Hk3).
+    exists r3, w2. split; [exact Hrun3 | exact Hk3].
+  Qed.
+
+  (** open read-only, use the handle, close *)
+  Lemma ro_handle_op_spec {A} (use : fhandle -> M A) (f : A -> obs) (w : world) (n : str) :
+    Inv Vb Vk B0 w -> snolinkpar (Vb w) n ->
+    (forall h w1, a_openfile base n 0 0 w = (MOk h, w1) ->
+       forall w2, quiet w2 -> swf (Vb w2) -> framed Vb Vk (use h) w2 []) ->
+    exists r w', (h <- a_openfile base n 0 0 ;;
+                  r <- try_ (use h) ;; _ <- try_ (hclose h) ;; x <- lift_res r ;; ret (f x)) w = (r, w') /\
+                 keeps (fun _ => False) w r w'.
+  Proof.
+    intros HI Hnlp Huse. pose proof (inv_quiet _ _ _ _ HI) as Hq. pose proof (inv_wf_b _ _ _ _ HI) as Hwf.
+    destruct (framed_fr _ w [] (law2_open_ro _ _ _ _ _ _ _ Lb2 w n Hq Hwf Hnlp))
+      as (r1 & w1 & Hrun1 & Hnh1 & Hfr1).
+    destruct r1 as [h | e |]; [| | contradiction Hnh1; reflexivity].
+    2:{ exists (MErr e), w1. split; [rewrite (bind_err _ _ w w1 e Hrun1); reflexivity |].
+        apply (ro_keeps _ w w1 (MErr e) HI); [discriminate | exact Hfr1]. }
+    pose proof (fr_quiet w w1 [] Hq Hfr1) as Hq1. pose proof Hfr1 as (_ & Hwf1 & _).
+    destruct (try_framed _ w1 [] (Huse h w1 Hrun1 w1 Hq1 Hwf1)) as (x2 & w2 & Hrun2 & Hfr2).
+    pose proof (fr_quiet w1 w2 [] Hq1 Hfr2) as Hq2. pose proof Hfr2 as (_ & Hwf2 & _).
+    destruct (law2_ro_handle _ _ _ _ _ _ _ Lb2 w n h w1 Hq Hwf Hnlp Hrun1 w2 Hq2 Hwf2) as (_ & _ & Hcl & _).
+    destruct (try_framed _ w2 [] Hcl) as (x3 & w3 & Hrun3 & Hfr3).
+    pose proof (fr_trans w w2 w3 [] (fr_trans w w1 w2 [] Hfr1 Hfr2) Hfr3) as Hfr.
+    rewrite (bind_ok _ _ w w1 h Hrun1), (bind_ok _ _ w1 w2 x2 Hrun2), (bind_ok _ _ w2 w3 x3 Hrun3).
+    destruct x2 as [a | e].
+    - exists (MOk (f a)), w3. split; [reflexivity |].
+      apply (ro_keeps _ w w3 _ HI); [discriminate | exact Hfr].
+    - exists (MErr e), w3. split; [reflexivity |].
+      apply (ro_keeps _ w w3 _ HI); [discriminate | exact Hfr].
+  Qed.
+
+  (** ** Rename: both names are backed up, the new one first *)
+  Lemma rename_op_spec (w : world) (o n : str) :
+    Inv Vb Vk B0 w -> snolinkpar (Vb w) o -> snolinkpar (Vb w) n -> no_children (Vb w) o ->
+    exists r w', b_rename base backup o n w = (r, w') /\
+                 keeps (fun q => In q (cands o ++ cands n)) w r w'.
+  Proof.
+    intros HI Hnlo Hnln Hleaf. unfold b_rename.
+    pose proof Hnlo as [[Hco _] _]. pose proof Hnln as [[Hcn _] _].
+    destruct (real_path_resolved_spec base Vb Vk tnb accb rhb whb Lb w o
+                (inv_quiet _ _ _ _ HI) (inv_wf_b _ _ _ _ HI) Hnlo) as (w1 & Hrun1 & HVb1 & Hsr1).
+    pose proof (same_all_base w w1 HVb1 Hsr1) as Hsa1.
+    pose proof (Inv_transfer w w1 HI Hsa1) as HI1.
+    assert (Hnln1 : snolinkpar (Vb w1) n) by (rewrite HVb1; exact Hnln).
+    destruct (real_path_resolved_spec base Vb Vk tnb accb rhb whb Lb w1 n
+                (inv_quiet _ _ _ _ HI1) (inv_wf_b _ _ _ _ HI1) Hnln1) as (w2 & Hrun2 & HVb2 & Hsr2).
+    pose proof (same_all_trans w w1 w2 Hsa1 (same_all_base w1 w2 HVb2 Hsr2)) as Hsa2.
+    pose proof (Inv_transfer w w2 HI Hsa2) as HI2.
+    pose proof Hsa2 as (HVb02 & _).
+    assert (Hnln2 : snolinkpar (Vb w2) n) by (rewrite HVb02; exact Hnln).
+    rewrite (bind_ok _ _ w w1 o Hrun1), (bind_ok _ _ w1 w2 n Hrun2).
+    (* the new name *)
+    destruct (try_backup_specS w2 n HI2 Hnln2) as (r3 & w3 & Hrun3 & Hnh3 & HI3 & Hext3 & Htr3 & _).
+    assert (Hext03 : ext Vb w w3 (cands o ++ cands n)).
+    { eapply ext_trans; [exact (same_all_ext w w2 (cands n) Hsa2) | exact Hext3 | |];
+        intros q Hq; apply in_or_app; right; exact Hq. }
+    destruct r3 as [[] | e |]; [| | contradiction Hnh3; reflexivity].
+    2:{ exists (MErr e), w3. split; [rewrite (bind_err _ _ w2 w3 e Hrun3); reflexivity |].
+        apply (keeps_inv _ w w3 (MErr e) (cands o ++ cands n));
+          [discriminate | exact HI3 | exact Hext03 | exact (fun q Hq => Hq)]. }
+    rewrite (bind_ok _ _ w2 w3 tt Hrun3).
+    (* the old name *)
+    pose proof Hext03 as (HVb03 & _ & _).
+    assert (Hnlo3 : snolinkpar (Vb w3) o) by (rewrite HVb03; exact Hnlo).
+    destruct (try_backup_specS w3 o HI3 Hnlo3) as (r4 & w4 & Hrun4 & Hnh4 & HI4 & Hext4 & Htr4 & _).
+    assert (Hext04 : ext Vb w w4 (cands o ++ cands n)).
+    { eapply ext_trans; [exact Hext03 | exact Hext4 | apply incl_refl |].
+      intros q Hq. apply in_or_app. left. exact Hq. }
+    destruct r4 as [[] | e |]; [| | contradiction Hnh4; reflexivity].
+    2:{ exists (MErr e), w4. split; [rewrite (bind_err _ _ w3 w4 e Hrun4); reflexivity |].
+        apply (keeps_inv _ w w4 (MErr e) (cands o ++ cands n));
+          [discriminate | exact HI4 | exact Hext04 | exact (fun q Hq => Hq)]. }
+    rewrite (bind_ok _ _ w3 w4 tt Hrun4).
+    (* the call *)
+    pose proof Hext04 as (HVb04 & _ & _).
+    assert (Htl : Forall (tracked w4) [o; n]).
+    { constructor; [exact (proj1 (Htr4 eq_refl)) |]. constructor; [| constructor].
+      exact (ext_tracked _ _ _ _ _ Hext4 (proj1 (Htr3 eq_refl))). }
+    assert (Hfrm : framed Vb Vk (a_rename base o n) w4 [o; n]).
+    { apply (law_user_rename _ _ _ _ _ _ _ Lb w4 o n (inv_quiet _ _ _ _ HI4) (inv_wf_b _ _ _ _ HI4));
+        rewrite HVb04; assumption. }
+    destruct (framed_fr _ w4 _ Hfrm) as (r5 & w5 & Hrun5 & Hnh5 & Hfr5).
+    exists r5, w5. split; [exact Hrun5 |].
+    exact (keeps_frame _ w w4 w5 r5 (cands o ++ cands n) [o; n] Hnh5 HI4 Hext04 (fun q Hq => Hq) Hfr5 Htl).
+  Qed.
+
+  (** ** RemoveAll *)
+
+  (** the new store only lost entries of the old one (and kept the others up to equivalence) *)
+  Definition shrinks (s s' : store) : Prop :=
+    forall p, s' !! p = None \/ sonode_eqv (s' !! p) (s !! p).
+
+  Lemma shrinks_refl (s : store) : shrinks s s.
+  Proof. intros p. right. apply sonode_eqv_refl. Qed.
+
+  Lemma shrinks_eq (s s' : store) : s' = s -> shrinks s s'.
+  Proof. intros ->. apply shrinks_refl. Qed.
+
+  Lemma shrinks_trans (s1 s2 s3 : store) : shrinks s1 s2 -> shrinks s2 s3 -> shrinks s1 s3.
+  Proof.
+    intros H1 H2 p. destruct (H2 p) as [Hn | He]; [left; exact Hn |].
+    destruct (H1 p) as [Hn1 | He1].
+    - rewrite Hn1 in He. destruct (s3 !! p) as [x|]; [contradiction He | left; reflexivity].
+    - right. eapply sonode_eqv_trans; eassumption.
+  Qed.
+
+  Lemma shrinks_snolinkpar (s s' : store) (p : str) : shrinks s s' -> snolinkpar s p -> snolinkpar s' p.
+  Proof.
+    intros Hsh [Hac Hf]. split; [exact Hac |].
+    eapply List.Forall_impl; [| exact Hf].
+    intros a Hnl m t Hl. destruct (Hsh a) as [Hn | He].
+    - rewrite Hn in Hl. discriminate Hl.
+    - rewrite Hl in He. destruct (s !! a) as [[m' | m' c' | m' t']|] eqn:Hs; simpl in He; try contradiction.
+      exact (Hnl m' t' Hs).
+  Qed.
+
+  Lemma eqv_kind (a b : node) : snode_eqv a b -> node_kind a = node_kind b.
+  Proof. destruct a, b; simpl; try contradiction; reflexivity. Qed.
+
+  Lemma no_children_dec (s : store) (p : str) : no_children s p \/ ~ no_children s p.
+  Proof.
+    assert (Hdec : forall (q : str) (x : node), Decision (q = p \/ ~ In p (ancestors q))).
+    { intros q _. destruct (str_eq_dec q p) as [E | Hne]; [left; left; exact E |].
+      destruct (in_dec str_eq_dec p (ancestors q)) as [Hin | Hnin].
+      - right. intros [E | Hn]; [exact (Hne E) | exact (Hn Hin)].
+      - left. right. exact Hnin. }
+    destruct (decide (map_Forall (fun (q : str) (_ : node) => q = p \/ ~ In p (ancestors q)) s))
+      as [Hall | Hnall].
+    - left. intros q n Hq Hne Hin. destruct (Hall q n Hq) as [E | Hn]; [exact (Hne E) | exact (Hn Hin)].
+    - right. intros Hnc. apply Hnall. intros q n Hq.
+      destruct (str_eq_dec q p) as [E | Hne]; [left; exact E | right; exact (Hnc q n Hq Hne)].
+  Qed.
+
+  (** like [keeps], but the invariant holds outright and the base only lost entries *)
+  Definition kept {A} (P : str -> Prop) (w : world) (r : mres A) (w' : world) : Prop :=
+    r <> MHalt /\ Inv Vb Vk B0 w' /\ infos_ext_in w w' P /\ shrinks (Vb w) (Vb w').
+
+  Lemma kept_keeps {A} (P : str -> Prop) (w : world) (r : mres A) (w' : world) :
+    kept P w r w' -> keeps P w r w'.
+  Proof. intros (Hnh & HI' & Hie & _). split; [exact Hnh | split; [intros _; exact HI' | exact Hie]]. Qed.
+
+  Lemma kept_weaken {A} (P Q : str -> Prop) (w : world) (r : mres A) (w' : world) :
+    (forall q, P q -> Q q) -> kept P w r w' -> kept Q w r w'.
+  Proof.
+    intros HPQ (Hnh & HI' & (Hm & Hd) & Hsh).
+    split; [exact Hnh | split; [exact HI' | split; [split; [exact Hm |] | exact Hsh]]].
+    intros q Hq. destruct (Hd q Hq) as [H | H]; [left; exact H | right; exact (HPQ q H)].
+  Qed.
+
+  Lemma kept_same {A} (P : str -> Prop) (w w' : world) (r : mres A) :
+    r <> MHalt -> Inv Vb Vk B0 w -> same_all w w' -> kept P w r w'.
+  Proof.
+    intros Hnh HI Hsa. pose proof Hsa as (HV & _ & Hi & _).
+    split; [exact Hnh | split; [exact (Inv_transfer w w' HI Hsa) | split; [| apply shrinks_eq; exact HV]]].
+    unfold infos_ext_in. rewrite Hi. split; [intros q _; reflexivity | intros q Hq; left; exact Hq].
+  Qed.
+
+  Lemma kept_result {A B} (P : str -> Prop) (w : world) (r : mres A) (r' : mres B) (w' : world) :
+    r' <> MHalt -> kept P w r w' -> kept P w r' w'.
+  Proof. intros Hnh (_ & H). split; [exact Hnh | exact H]. Qed.
+
+  Lemma same_all_refl (w : world) : same_all w w.
+  Proof. repeat split. Qed.
+
+  Lemma kept_trans {A B} (P : str -> Prop) (w w1 w2 : world) (r1 : mres A) (r2 : mres B) :
+    kept P w r1 w1 -> kept P w1 r2 w2 -> kept P w r2 w2.
+  Proof.
+    intros (_ & _ & (Hm1 & Hd1) & Hsh1) (Hnh2 & HI2 & (Hm2 & Hd2) & Hsh2).
+    split; [exact Hnh2 | split; [exact HI2 | split; [split |]]].
+    - intros q Hq. rewrite Hm2; [exact (Hm1 q Hq) |]. rewrite (Hm1 q Hq). exact Hq.
+    - intros q Hq. destruct (Hd2 q Hq) as [H | H]; [| right; exact H]. exact (Hd1 q H).
+    - exact (shrinks_trans _ _ _ Hsh1 Hsh2).
+  Qed.
+
+  (** Remove of anything but the root ends in a state that satisfies the
+      invariant outright (the precise laws of Remove say what became of the entry) *)
+  Lemma remove_strong (w : world) (sub : str) :
+    Inv Vb Vk B0 w -> snolinkpar (Vb w) sub -> sub <> s_root ->
+    exists r w', b_remove base backup sub w = (r, w') /\ kept (fun q => In q (cands sub)) w r w'.
+  Proof.
+    intros HI Hnlp Hne. pose proof Hnlp as [[Hc _] _].
+    destruct (guarded_spec (a_remove base) w sub [sub] HI Hnlp (incl_self_cands sub Hc))
+      as (r & w' & w2 & Hrun & Hnh & HI2 & Hext & Hi & _ & Hcase).
+    { intros w0 Hq0 Hwf0 HV0. apply (law_user_remove _ _ _ _ _ _ _ Lb w0 sub Hq0 Hwf0).
+      rewrite HV0. exact Hnlp. }
+    exists r, w'. split; [exact Hrun |].
+    pose proof Hext as (HVb2 & Hm & Hd).
+    assert (Hie : forall w3, w_infos w3 = w_infos w2 -> infos_ext_in w w3 (fun q => In q (cands sub))).
+    { intros w3 E. unfold infos_ext_in. rewrite E. split; assumption. }
+    destruct Hcase as [[_ ->] | (Htl & Hcall & Hfr)].
+    { split; [exact Hnh | split; [exact HI2 | split; [apply Hie; reflexivity | apply shrinks_eq; exact HVb2]]]. }
+    assert (Hnlp2 : snolinkpar (Vb w2) sub) by (rewrite HVb2; exact Hnlp).
+    pose proof (inv_quiet _ _ _ _ HI2) as Hq2. pose proof (inv_wf_b _ _ _ _ HI2) as Hwf2.
+    assert (Hsame : forall e w3, a_remove base sub w2 = (MErr e, w3) -> Vb w3 = Vb w2 -> same_rest Vk w2 w3 ->
+                                 kept (fun q => In q (cands sub)) w r w').
+    { intros e w3 Hrun3 HV3 Hsr3. rewrite Hcall in Hrun3. injection Hrun3 as Er Ew. subst r w'.
+      pose proof (same_all_base w2 w3 HV3 Hsr3) as Hsa.
+      split; [discriminate |]. split; [exact (Inv_transfer w2 w3 HI2 Hsa) |].
+      split; [apply Hie; exact (proj1 (proj2 Hsr3)) | apply shrinks_eq; congruence]. }
+    destruct (Vb w2 !! sub) as [nd|] eqn:Hb.
+    - destruct (no_children_dec (Vb w2) sub) as [Hnc | Hnnc].
+      + destruct (law_remove_leaf _ _ _ _ _ _ _ Lb w2 sub nd Hq2 Hwf2 Hnlp2 Hb Hnc Hne)
+          as (s' & (w3 & Hrun3 & HV3 & Hsr3) & Hnone & Heqv' & Hwf').
+        rewrite Hcall in Hrun3. injection Hrun3 as Er Ew. subst r w'.
+        assert (Hsh : shrinks (Vb w2) (Vb w3)).
+        { rewrite HV3. intros p. destruct (str_eq_dec p sub) as [-> | Hp]; [left; exact Hnone | right].
+          apply Heqv'. intros [E | []]. exact (Hp (eq_sym E)). }
+        pose proof (fr_infos w2 w3 [sub] Hfr) as Hi3.
+        split; [discriminate |]. split; [| split; [apply Hie; exact Hi3 | rewrite <- HVb2; exact Hsh]].
+        apply (Inv_base_frame w2 w3 [sub] HI2 Hfr Htl). split.
+        * intros p fi n' Hp Hn'. rewrite Hi3 in Hp.
+          destruct (Hsh p) as [Hnn | He]; [rewrite Hn' in Hnn; discriminate Hnn |].
+          rewrite Hn' in He. destruct (Vb w2 !! p) as [n2|] eqn:E2; [| contradiction He]. simpl in He.
+          rewrite (eqv_kind _ _ He). exact (inv_kind _ _ _ _ HI2 p fi n2 Hp E2).
+        * intros p Hp. rewrite Hi3 in Hp.
+          exact (shrinks_snolinkpar _ _ p Hsh (inv_nolink _ _ _ _ HI2 p Hp)).
+      + destruct (law_remove_nonempty _ _ _ _ _ _ _ Lb w2 sub nd Hq2 Hwf2 Hnlp2 Hb Hnnc)
+          as (e & w3 & Hrun3 & _ & HV3 & Hsr3).
+        exact (Hsame e w3 Hrun3 HV3 Hsr3).
+    - destruct (law_remove_none _ _ _ _ _ _ _ Lb w2 sub Hq2 Hwf2 Hnlp2 Hb)
+        as (e & w3 & Hrun3 & _ & HV3 & Hsr3).
+      exact (Hsame e w3 Hrun3 HV3 Hsr3).
+  Qed.
+
+  (** [d] is [n] or lies below it *)
+  Definition under (n d : str) : Prop := d = n \/ In n (ancestors d).
+
+  (** [q] is on the chain from the root to some path at or below [n] *)
+  Definition below_chain (n q : str) : Prop := exists s, under n s /\ In q (cands s).
+
+  Lemma under_not_root (n d : str) : n <> s_root -> under n d -> d <> s_root.
+  Proof.
+    intros Hn [-> | Hin]; [exact Hn |]. intros ->. rewrite ancestors_root in Hin. contradiction.
+  Qed.
+
+  Lemma under_child (n path f : str) : cleaned f -> under n path -> In path (ancestors f) -> under n f.
+  Proof.
+    intros Hcf [-> | Hin] Hpf; right; [exact Hpf |]. exact (ancestors_trans f path n Hcf Hpf Hin).
+  Qed.
+
+  (** a path the walk has met: resolved, at or below [n] *)
+  Definition okd (n : str) (w : world) (d : str) : Prop := snolinkpar (Vb w) d /\ under n d.
+
+  Lemma okd_shrinks (n : str) (w w' : world) (l : list str) :
+    shrinks (Vb w) (Vb w') -> Forall (okd n w) l -> Forall (okd n w') l.
+  Proof.
+    intros Hsh Hl. eapply List.Forall_impl; [| exact Hl].
+    intros d [H1 H2]. split; [exact (shrinks_snolinkpar _ _ d Hsh H1) | exact H2].
+  Qed.
+
+  (** the walk callback of RemoveAll *)
+  Definition ra_fn (acc : list str) (sub : str) (info : finfo) : M (list str) :=
+    if is_dir_info info then ret (acc ++ [sub]) else b_remove base backup sub ;;; ret acc.
+
+  Lemma b_removeall_eq (name : str) :
+    b_removeall base backup name =
+    (rn <- real_path base name ;;
+     r <- try_ (a_lstat base rn) ;;
+     match r with
+     | Err e => if is_not_found e then ret tt else fail e
+     | Ok fi =>
+         if negb (is_dir_info fi) then b_remove base backup rn
+         else dirs <- walk_m base rn ra_fn [] ;; miter (b_remove base backup) (sort_most dirs)
+     end).
+  Proof. reflexivity. Qed.
+
+  Lemma remove_under (n : str) (w : world) (d : str) :
+    n <> s_root -> Inv Vb Vk B0 w -> okd n w d ->
+    exists r w', b_remove base backup d w = (r, w') /\ kept (below_chain n) w r w'.
+  Proof.
+    intros Hnr HI [Hnlp Hun].
+    destruct (remove_strong w d HI Hnlp (under_not_root n d Hnr Hun)) as (r & w' & Hrun & Hk).
+    exists r, w'. split; [exact Hrun |]. eapply kept_weaken; [| exact Hk].
+    intros q Hq. exists d. split; assumption.
+  Qed.
+
+  (** the walk below [n]: files and links are removed on the way, directories collected *)
+  Lemma walk_spec (n : str) : n <> s_root ->
+    forall (fuel : nat) (path : str) (info : finfo) (acc : list str) (w : world),
+    Inv Vb Vk B0 w -> okd n w path -> (is_dir_info info = true -> sdir (Vb w) path) ->
+    Forall (okd n w) acc ->
+    exists r w', walk_fold fuel base path info ra_fn acc w = (r, w') /\ kept (below_chain n) w r w' /\
+                 forall acc', r = MOk acc' -> Forall (okd n w') acc'.
+  Proof.
+    intros Hnr. induction fuel as [|fuel IH]; intros path info acc w HI Hpath Hdir Hacc.
+    { exists (MErr EFUEL), w. split; [reflexivity |].
+      split; [apply kept_same; [discriminate | exact HI | apply same_all_refl] | intros acc' D; discriminate D]. }
+    cbn [walk_fold]. destruct (is_dir_info info) eqn:Ed.
+    2:{ (* not a directory: removed *)
+      destruct (remove_under n w path Hnr HI Hpath) as (r1 & w1 & Hrun1 & Hk1).
+      destruct r1 as [[] | e |]; [| | destruct Hk1 as [Hnh _]; contradiction Hnh; reflexivity].
+      - assert (Hfn : ra_fn acc path info w = (MOk acc, w1)).
+        { unfold ra_fn. rewrite Ed. rewrite (bind_ok _ _ w w1 tt Hrun1). reflexivity. }
+        rewrite (bind_ok _ _ w w1 acc Hfn).
+        exists (MOk acc), w1. split; [reflexivity |].
+        split; [apply (kept_result _ w (MOk tt) (MOk acc) w1); [discriminate | exact Hk1] |].
+        intros acc' E. injection E as <-. destruct Hk1 as (_ & _ & _ & Hsh). exact (okd_shrinks n w w1 acc Hsh Hacc).
+      - assert (Hfn : ra_fn acc path info w = (MErr e, w1)).
+        { unfold ra_fn. rewrite Ed. rewrite (bind_err _ _ w w1 e Hrun1). reflexivity. }
+        rewrite (bind_err _ _ w w1 e Hfn).
+        exists (MErr e), w1. split; [reflexivity |].
+        split; [apply (kept_result _ w (MErr e : mres unit) (MErr e) w1); [discriminate | exact Hk1] |].
+        intros acc' D. discriminate D. }
+    (* a directory: collected, its entries walked *)
+    assert (Hfn : ra_fn acc path info w = (MOk (acc ++ [path]), w)).
+    { unfold ra_fn. rewrite Ed. reflexivity. }
+    rewrite (bind_ok _ _ w w (acc ++ [path]) Hfn).
+    destruct (Hdir eq_refl) as [m Hm]. destruct Hpath as [Hnlp Hun].
+    destruct (law2_readdir _ _ _ _ _ _ _ Lb2 w path m (inv_quiet _ _ _ _ HI) (inv_wf_b _ _ _ _ HI) Hnlp Hm)
+      as (r2 & w2 & Hrun2 & Hnh2 & HV2 & Hsr2 & Hnames).
+    pose proof (same_all_base w w2 HV2 Hsr2) as Hsa2.
+    destruct r2 as [names | e |]; [| | contradiction Hnh2; reflexivity].
+    2:{ rewrite (bind_err _ _ w w2 e Hrun2). exists (MErr e), w2. split; [reflexivity |].
+        split; [apply kept_same; [discriminate | exact HI | exact Hsa2] | intros acc' D; discriminate D]. }
+    rewrite (bind_ok _ _ w w2 names Hrun2).
+    pose proof (Inv_transfer w w2 HI Hsa2) as HI2.
+    assert (Hacc2 : Forall (okd n w2) (acc ++ [path])).
+    { apply (okd_shrinks n w w2); [apply shrinks_eq; exact HV2 |].
+      apply Forall_app. split; [exact Hacc |]. constructor; [split; assumption | constructor]. }
+    assert (Hnm2 : Forall (okd n w2) (map (join2 path) names)).
+    { specialize (Hnames names eq_refl). apply List.Forall_forall. intros f Hf.
+      apply in_map_iff in Hf. destruct Hf as (nm & <- & Hnm).
+      rewrite List.Forall_forall in Hnames. destruct (Hnames nm Hnm) as [Hex Hpar].
+      destruct (Vb w !! join2 path nm) as [nd|] eqn:Hb; [| contradiction Hex; reflexivity].
+      pose proof (swf_lookup_snolinkpar _ _ _ (inv_wf_b _ _ _ _ HI) Hb) as Hnlf.
+      split; [rewrite HV2; exact Hnlf |].
+      exact (under_child n path _ (proj1 (proj1 Hnlf)) Hun Hpar). }
+    (* the entries, one after the other *)
+    assert (Hfold : forall (l : list str) (acc0 : list str) (w0 : world),
+              Inv Vb Vk B0 w0 -> Forall (okd n w0) (map (join2 path) l) -> Forall (okd n w0) acc0 ->
+              exists r w', mfold (fun a name =>
+                                    fi <- a_lstat base (join2 path name) ;;
+                                    walk_fold fuel base (join2 path name) fi ra_fn a) l acc0 w0 = (r, w') /\
+                           kept (below_chain n) w0 r w' /\
+                           forall acc', r = MOk acc' -> Forall (okd n w') acc').
+    { induction l as [|nm rest IHl]; intros acc0 w0 HI0 Hl0 Hacc0.
+      { exists (MOk acc0), w0. split; [reflexivity |].
+        split; [apply kept_same; [discriminate | exact HI0 | apply same_all_refl] |].
+        intros acc' E. injection E as <-. exact Hacc0. }
+      cbn [mfold]. cbn [map] in Hl0.
+      pose proof (List.Forall_inv Hl0) as [Hnlf Hunf]. pose proof (List.Forall_inv_tail Hl0) as Hrest.
+      pose proof (inv_quiet _ _ _ _ HI0) as Hq0. pose proof (inv_wf_b _ _ _ _ HI0) as Hwf0.
+      destruct (Vb w0 !! join2 path nm) as [nd|] eqn:Hb.
+      2:{ destruct (law_lstat_none _ _ _ _ _ _ _ Lb w0 _ Hq0 Hwf0 Hnlf Hb) as (e & w1 & Hrun1 & _ & HV1 & Hsr1).
+          assert (Hin : (fi <- a_lstat base (join2 path nm) ;;
+                         walk_fold fuel base (join2 path nm) fi ra_fn acc0) w0 = (MErr e, w1)).
+          { rewrite (bind_err _ _ w0 w1 e Hrun1). reflexivity. }
+          rewrite (bind_err _ _ w0 w1 e Hin). exists (MErr e), w1. split; [reflexivity |].
+          split; [apply kept_same; [discriminate | exact HI0 | exact (same_all_base w0 w1 HV1 Hsr1)] |].
+          intros acc' D. discriminate D. }
+      destruct (law_lstat_some _ _ _ _ _ _ _ Lb w0 _ nd Hq0 Hwf0 Hnlf Hb)
+        as (fi & (w1 & Hrun1 & HV1 & Hsr1) & Him & _).
+      pose proof (same_all_base w0 w1 HV1 Hsr1) as Hsa1.
+      pose proof (Inv_transfer w0 w1 HI0 Hsa1) as HI1.
+      destruct (IH (join2 path nm) fi acc0 w1 HI1) as (r3 & w3 & Hrun3 & Hk3 & Hacc3).
+      { split; [rewrite HV1; exact Hnlf | exact Hunf]. }
+      { intros Edf. rewrite HV1. unfold is_dir_info in Edf. rewrite (proj1 Him) in Edf.
+        destruct nd as [md | md cd | md td]; [exists md; exact Hb | discriminate Edf | discriminate Edf]. }
+      { apply (okd_shrinks n w0 w1); [apply shrinks_eq; exact HV1 | exact Hacc0]. }
+      assert (Hk03 : kept (below_chain n) w0 r3 w3).
+      { eapply kept_trans; [| exact Hk3].
+        apply (kept_same _ w0 w1 (MOk tt)); [discriminate | exact HI0 | exact Hsa1]. }
+      assert (Hin : (fi <- a_lstat base (join2 path nm) ;;
+                     walk_fold fuel base (join2 path nm) fi ra_fn acc0) w0 = (r3, w3)).
+      { rewrite (bind_ok _ _ w0 w1 fi Hrun1). exact Hrun3. }
+      destruct r3 as [acc3 | e |]; [| | destruct Hk3 as [Hnh _]; contradiction Hnh; reflexivity].
+      2:{ rewrite (bind_err _ _ w0 w3 e Hin). exists (MErr e), w3. split; [reflexivity |].
+          split; [exact Hk03 | intros acc' D; discriminate D]. }
+      rewrite (bind_ok _ _ w0 w3 acc3 Hin).
+      pose proof Hk03 as (_ & HI3 & _ & Hsh03).
+      destruct (IHl acc3 w3 HI3 (okd_shrinks n w0 w3 _ Hsh03 Hrest) (Hacc3 acc3 eq_refl))
+        as (r4 & w4 & Hrun4 & Hk4 & Hacc4).
+      exists r4, w4. split; [exact Hrun4 |]. split; [exact (kept_trans _ w0 w3 w4 _ r4 Hk03 Hk4) | exact Hacc4]. }
+    destruct (Hfold names (acc ++ [path]) w2 HI2 Hnm2 Hacc2) as (r5 & w5 & Hrun5 & Hk5 & Hacc5).
+    exists r5, w5. split; [exact Hrun5 |]. split; [| exact Hacc5].
+    eapply kept_trans; [| exact Hk5].
+    apply (kept_same _ w w2 (MOk tt)); [discriminate | exact HI | exact Hsa2].
+  Qed.
+
+  (** the collected directories, deepest first *)
+  Lemma miter_remove (n : str) : n <> s_root -> forall (l : list str) (w : world),
+    Inv Vb Vk B0 w -> Forall (okd n w) l ->
+    exists r w', miter (b_remove base backup) l w = (r, w') /\ kept (below_chain n) w r w'.
+  Proof.
+    intros Hnr. induction l as [|d rest IHl]; intros w HI Hl.
+    { exists (MOk tt), w. split; [reflexivity |].
+      apply kept_same; [discriminate | exact HI | apply same_all_refl]. }
+    cbn [miter].
+    destruct (remove_under n w d Hnr HI (List.Forall_inv Hl)) as (r1 & w1 & Hrun1 & Hk1).
+    destruct r1 as [[] | e |]; [| | destruct Hk1 as [Hnh _]; contradiction Hnh; reflexivity].
+    - rewrite (bind_ok _ _ w w1 tt Hrun1). pose proof Hk1 as (_ & HI1 & _ & Hsh1).
+      destruct (IHl w1 HI1 (okd_shrinks n w w1 rest Hsh1 (List.Forall_inv_tail Hl))) as (r2 & w2 & Hrun2 & Hk2).
+      exists r2, w2. split; [exact Hrun2 | exact (kept_trans _ w w1 w2 _ r2 Hk1 Hk2)].
+    - rewrite (bind_err _ _ w w1 e Hrun1). exists (MErr e), w1. split; [reflexivity | exact Hk1].
+  Qed.
+
+  Lemma cands_below (n q : str) : In q (cands n) -> below_chain n q.
+  Proof. intros Hq. exists n. split; [left; reflexivity | exact Hq]. Qed.
+
+  Lemma removeall_spec (w : world) (n : str) :
+    Inv Vb Vk B0 w -> snolinkpar (Vb w) n -> n <> s_root ->
+    exists r w', b_removeall base backup n w = (r, w') /\ keeps (below_chain n) w r w'.
+  Proof.
+    intros HI Hnlp Hnr. rewrite b_removeall_eq. pose proof Hnlp as [[Hc _] _].
+    destruct (real_path_resolved_spec base Vb Vk tnb accb rhb whb Lb w n
+                (inv_quiet _ _ _ _ HI) (inv_wf_b _ _ _ _ HI) Hnlp) as (w1 & Hrun1 & HVb1 & Hsr1).
+    pose proof (same_all_base w w1 HVb1 Hsr1) as Hsa1.
+    pose proof (Inv_transfer w w1 HI Hsa1) as HI1.
+    assert (Hnlp1 : snolinkpar (Vb w1) n) by (rewrite HVb1; exact Hnlp).
+    rewrite (bind_ok _ _ w w1 n Hrun1).
+    destruct (Vb w !! n) as [nd|] eqn:Hb.
+    2:{ assert (Hb1 : Vb w1 !! n = None) by (rewrite HVb1; exact Hb).
+        destruct (law_lstat_none _ _ _ _ _ _ _ Lb w1 n (inv_quiet _ _ _ _ HI1) (inv_wf_b _ _ _ _ HI1) Hnlp1 Hb1)
+          as (e & w2 & Hrun2 & Hnf & HV2 & Hsr2).
+        pose proof (same_all_trans w w1 w2 Hsa1 (same_all_base w1 w2 HV2 Hsr2)) as Hsa2.
+        rewrite (bind_ok _ _ w1 w2 (Err e) (try_err _ w1 w2 e Hrun2)).
+        unfold not_found in Hnf. rewrite Hnf.
+        exists (MOk tt), w2. split; [reflexivity |].
+        apply kept_keeps. apply kept_same; [discriminate | exact HI | exact Hsa2]. }
+    assert (Hb1 : Vb w1 !! n = Some nd) by (rewrite HVb1; exact Hb).
+    destruct (law_lstat_some _ _ _ _ _ _ _ Lb w1 n nd (inv_quiet _ _ _ _ HI1) (inv_wf_b _ _ _ _ HI1) Hnlp1 Hb1)
+      as (fi & (w2 & Hrun2 & HV2 & Hsr2) & Him & _).
+    pose proof (same_all_trans w w1 w2 Hsa1 (same_all_base w1 w2 HV2 Hsr2)) as Hsa2.
+    pose proof (Inv_transfer w w2 HI Hsa2) as HI2. pose proof Hsa2 as (HVb02 & _).
+    rewrite (bind_ok _ _ w1 w2 (Ok fi) (try_ok _ w1 w2 fi Hrun2)).
+    assert (Hnlp2 : snolinkpar (Vb w2) n) by (rewrite HVb02; exact Hnlp).
+    destruct (is_dir_info fi) eqn:Ed; cbn [negb].
+    2:{ (* not a directory: one Remove *)
+        destruct (remove_under n w2 n Hnr HI2 (conj Hnlp2 (or_introl eq_refl))) as (r3 & w3 & Hrun3 & Hk3).
+        exists r3, w3. split; [exact Hrun3 |]. apply kept_keeps.
+        eapply kept_trans; [| exact Hk3].
+        apply (kept_same _ w w2 (MOk tt)); [discriminate | exact HI | exact Hsa2]. }
+    (* a directory: walk it, then remove the directories deepest first *)
+    assert (Hb2 : Vb w2 !! n = Some nd) by (rewrite HVb02; exact Hb).
+    destruct (law_lstat_some _ _ _ _ _ _ _ Lb w2 n nd (inv_quiet _ _ _ _ HI2) (inv_wf_b _ _ _ _ HI2) Hnlp2 Hb2)
+      as (fi' & (w3 & Hrun3 & HV3 & Hsr3) & Him' & _).
+    pose proof (same_all_trans w w2 w3 Hsa2 (same_all_base w2 w3 HV3 Hsr3)) as Hsa3.
+    pose proof (Inv_transfer w w3 HI Hsa3) as HI3. pose proof Hsa3 as (HVb03 & _).
+    destruct (walk_spec n Hnr tree_fuel n fi' [] w3 HI3) as (r4 & w4 & Hrun4 & Hk4 & Hacc4).
+    { split; [rewrite HVb03; exact Hnlp | left; reflexivity]. }
+    { intros Edf. rewrite HVb03. unfold is_dir_info in Edf. rewrite (proj1 Him') in Edf.
+      destruct nd as [md | md cd | md td]; [exists md; exact Hb | discriminate Edf | discriminate Edf]. }
+    { constructor. }
+    assert (Hk04 : kept (below_chain n) w r4 w4).
+    { eapply kept_trans; [| exact Hk4].
+      apply (kept_same _ w w3 (MOk tt)); [discriminate | exact HI | exact Hsa3]. }
+    assert (Hwalk : walk_m base n ra_fn [] w2 = (r4, w4)).
+    { unfold walk_m. rewrite (bind_ok _ _ w2 w3 fi' Hrun3). exact Hrun4. }
+    destruct r4 as [dirs | e |]; [| | destruct Hk4 as [Hnh _]; contradiction Hnh; reflexivity].
+    2:{ rewrite (bind_err _ _ w2 w4 e Hwalk). exists (MErr e), w4. split; [reflexivity |].
+        apply kept_keeps. apply (kept_result _ w (MErr e : mres (list str)) (MErr e) w4); [discriminate | exact Hk04]. }
+    rewrite (bind_ok _ _ w2 w4 dirs Hwalk).
+    pose proof Hk04 as (_ & HI4 & _ & _).
+    assert (Hsorted : Forall (okd n w4) (sort_most dirs)).
+    { specialize (Hacc4 dirs eq_refl). apply List.Forall_forall. intros d Hd.
+      rewrite List.Forall_forall in Hacc4. apply Hacc4.
+      unfold sort_most in Hd. exact (Permutation_in d (isort_perm most dirs) Hd). }
+    destruct (miter_remove n Hnr (sort_most dirs) w4 HI4 Hsorted) as (r5 & w5 & Hrun5 & Hk5).
+    exists r5, w5. split; [exact Hrun5 |]. apply kept_keeps.
+    exact (kept_trans _ w w4 w5 _ r5 Hk04 Hk5).
+  Qed.
+
+  (** ** every covered operation keeps the invariant *)
+
+  Lemma touches_cands (o : op) (n q : str) : In n (op_names o) -> In q (cands n) -> op_touches o q.
+  Proof. intros Hn Hq. exists n, n. split; [exact Hn | split; [left; reflexivity | exact Hq]]. Qed.
+
+  Lemma finish_name {A} (o : op) (n : str) (m : M A) (w : world) :
+    In n (op_names o) ->
+    (exists r w', m w = (r, w') /\ keeps (fun q => In q (cands n)) w r w') ->
+    exists r w', m w = (r, w') /\ keeps (op_touches o) w r w'.
+  Proof.
+    intros Hn (r & w' & Hrun & Hk). exists r, w'. split; [exact Hrun |].
+    eapply keeps_weaken; [| exact Hk]. intros q Hq. exact (touches_cands o n q Hn Hq).
+  Qed.
+
+  Lemma finish_ro {A} (o : op) (m : M A) (w : world) :
+    (exists r w', m w = (r, w') /\ keeps (fun _ => False) w r w') ->
+    exists r w', m w = (r, w') /\ keeps (op_touches o) w r w'.
+  Proof.
+    intros (r & w' & Hrun & Hk). exists r, w'. split; [exact Hrun |].
+    eapply keeps_weaken; [| exact Hk]. intros q [].
+  Qed.
+
   Lemma step_specS (o : op) (w : world) :
     Inv Vb Vk B0 w -> covered Vb o w ->
-    exists r w', step base backup o w = (r, w') /\ step_post o w r w'.
+    exists r w', step base backup o w = (r, w') /\ keeps (op_touches o) w r w'.
   Proof.
-    intros HI (Hso & Hres & Hfol). unfold resolved in Hres. unfold step_post.
-    destruct Hso as [n d | n perm | n | t n | n m | n u g | n u g | n t]; cbn [op_name follows] in *.
-    - exact (create_op_spec w n d HI Hres (Hfol eq_refl)).
-    - apply (unit_op_spec (fun rn => a_mkdir base rn perm) w n HI Hres).
+    intros HI (Hso & Hres & Hfol & Hren & Hrm).
+    pose proof (inv_quiet _ _ _ _ HI) as Hq. pose proof (inv_wf_b _ _ _ _ HI) as Hwf.
+    destruct Hso as [n d | n fl perm d | n perm | n perm | n | n | o n | t n | n m | n u g | n u g | n t
+                     | n | n | n | n | n];
+      cbn [op_names follows rename_source_leaf removeall_not_root] in *;
+      pose proof (List.Forall_inv Hres) as Hn; unfold resolved in Hn; pose proof Hn as [[Hc _] _].
+    - (* Create *)
+      apply (finish_name _ n); [left; reflexivity |]. cbn [step].
+      apply (handle_op_spec (a_create base) w n d HI Hn (List.Forall_inv (Hfol eq_refl))).
+      + intros w2 Hq2 Hwf2 HVb2. apply (law_user_create _ _ _ _ _ _ _ Lb w2 n Hq2 Hwf2);
+          rewrite HVb2; [exact Hn | exact (List.Forall_inv (Hfol eq_refl))].
+      + intros w2 r w' Hcall. right. exact Hcall.
+    - (* OpenFile, then write *)
+      cbn [step]. unfold b_openfile. destruct (N.eqb fl 0) eqn:Efl.
+      + apply finish_ro. exact (ro_open_write_spec w n d HI Hn).
+      + apply (finish_name _ n); [left; reflexivity |]. cbn [negb] in Hfol.
+        apply (handle_op_spec (fun rn => a_openfile base rn fl perm) w n d HI Hn (List.Forall_inv (Hfol eq_refl))).
+        * intros w2 Hq2 Hwf2 HVb2. apply (law_user_openfile _ _ _ _ _ _ _ Lb w2 n fl perm Hq2 Hwf2);
+            rewrite HVb2; [exact Hn | exact (List.Forall_inv (Hfol eq_refl))].
+        * intros w2 r w' Hcall. left. exists fl, perm. exact Hcall.
+    - (* Mkdir *)
+      apply (finish_name _ n); [left; reflexivity |].
+      apply (unit_op_spec (fun rn => a_mkdir base rn perm) w n [n] HI Hn (incl_self_cands n Hc)).
       intros w2 Hq2 Hwf2 HVb2. apply (law_user_mkdir _ _ _ _ _ _ _ Lb w2 n perm Hq2 Hwf2).
-      rewrite HVb2. exact Hres.
-    - apply (unit_op_spec (fun rn => a_remove base rn) w n HI Hres).
+      rewrite HVb2. exact Hn.
+    - (* MkdirAll: may create every missing directory on the way to the name *)
+      apply (finish_name _ n); [left; reflexivity |].
+      apply (unit_op_spec (fun rn => a_mkdirall base rn perm) w n (cands n) HI Hn (incl_refl _)).
+      intros w2 Hq2 Hwf2 HVb2. apply (law_user_mkdirall _ _ _ _ _ _ _ Lb w2 n perm Hq2 Hwf2).
+      rewrite HVb2. exact Hn.
+    - (* Remove *)
+      apply (finish_name _ n); [left; reflexivity |].
+      apply (unit_op_spec (fun rn => a_remove base rn) w n [n] HI Hn (incl_self_cands n Hc)).
       intros w2 Hq2 Hwf2 HVb2. apply (law_user_remove _ _ _ _ _ _ _ Lb w2 n Hq2 Hwf2).
-      rewrite HVb2. exact Hres.
-    - apply (unit_op_spec (fun rn => a_symlink base t rn) w n HI Hres).
+      rewrite HVb2. exact Hn.
+    - (* RemoveAll *)
+      cbn [step].
+      destruct (keeps_map_ex _ (b_removeall base backup n) (fun _ => ObUnit) w (removeall_spec w n HI Hn Hrm))
+        as (r & w' & Hrun & Hk).
+      exists r, w'. split; [exact Hrun |]. eapply keeps_weaken; [| exact Hk].
+      intros q (s & Hs & Hqs). exists n, s. split; [left; reflexivity |]. split; [| exact Hqs].
+      destruct Hs as [-> | Hin]; [left; reflexivity | right; split; [reflexivity | exact Hin]].
+    - (* Rename *)
+      pose proof (List.Forall_inv (List.Forall_inv_tail Hres)) as Hn2. unfold resolved in Hn2.
+      cbn [step].
+      destruct (keeps_map_ex _ (b_rename base backup o n) (fun _ => ObUnit) w (rename_op_spec w o n HI Hn Hn2 Hren))
+        as (r & w' & Hrun & Hk).
+      exists r, w'. split; [exact Hrun |]. eapply keeps_weaken; [| exact Hk].
+      intros q Hin. apply in_app_or in Hin. destruct Hin as [Hin | Hin].
+      + apply (touches_cands _ o q); [left; reflexivity | exact Hin].
+      + apply (touches_cands _ n q); [right; left; reflexivity | exact Hin].
+    - (* Symlink *)
+      apply (finish_name _ n); [left; reflexivity |].
+      apply (unit_op_spec (fun rn => a_symlink base t rn) w n [n] HI Hn (incl_self_cands n Hc)).
       intros w2 Hq2 Hwf2 HVb2. apply (law_user_symlink _ _ _ _ _ _ _ Lb w2 t n Hq2 Hwf2).
-      rewrite HVb2. exact Hres.
-    - apply (unit_op_spec (fun rn => a_chmod base rn m) w n HI Hres).
+      rewrite HVb2. exact Hn.
+    - (* Chmod *)
+      apply (finish_name _ n); [left; reflexivity |].
+      apply (unit_op_spec (fun rn => a_chmod base rn m) w n [n] HI Hn (incl_self_cands n Hc)).
       intros w2 Hq2 Hwf2 HVb2. apply (law_user_chmod _ _ _ _ _ _ _ Lb w2 n m Hq2 Hwf2);
-        rewrite HVb2; [exact Hres | exact (Hfol eq_refl)].
-    - apply (unit_op_spec (fun rn => a_chown base rn u g) w n HI Hres).
+        rewrite HVb2; [exact Hn | exact (List.Forall_inv (Hfol eq_refl))].
+    - (* Chown *)
+      apply (finish_name _ n); [left; reflexivity |].
+      apply (unit_op_spec (fun rn => a_chown base rn u g) w n [n] HI Hn (incl_self_cands n Hc)).
       intros w2 Hq2 Hwf2 HVb2. apply (law_user_chown _ _ _ _ _ _ _ Lb w2 n u g Hq2 Hwf2);
-        rewrite HVb2; [exact Hres | exact (Hfol eq_refl)].
-    - apply (unit_op_spec (fun rn => a_lchown base rn u g) w n HI Hres).
+        rewrite HVb2; [exact Hn | exact (List.Forall_inv (Hfol eq_refl))].
+    - (* Lchown *)
+      apply (finish_name _ n); [left; reflexivity |].
+      apply (unit_op_spec (fun rn => a_lchown base rn u g) w n [n] HI Hn (incl_self_cands n Hc)).
       intros w2 Hq2 Hwf2 HVb2. apply (law_user_lchown _ _ _ _ _ _ _ Lb w2 n u g Hq2 Hwf2).
-      rewrite HVb2. exact Hres.
-    - apply (unit_op_spec (fun rn => a_chtimes base rn (Preset t)) w n HI Hres).
+      rewrite HVb2. exact Hn.
+    - (* Chtimes *)
+      apply (finish_name _ n); [left; reflexivity |].
+      apply (unit_op_spec (fun rn => a_chtimes base rn (Preset t)) w n [n] HI Hn (incl_self_cands n Hc)).
       intros w2 Hq2 Hwf2 HVb2. apply (law_user_chtimes _ _ _ _ _ _ _ Lb w2 n (Preset t) Hq2 Hwf2);
-        rewrite HVb2; [exact Hres | exact (Hfol eq_refl)].
+        rewrite HVb2; [exact Hn | exact (List.Forall_inv (Hfol eq_refl))].
+    - (* Stat *)
+      apply finish_ro. cbn [step]. unfold b_stat.
+      exact (keeps_map_ex _ (a_stat base n) ObInfo w
+               (ro_call_spec _ w HI (law2_stat _ _ _ _ _ _ _ Lb2 w n Hq Hwf Hn))).
+    - (* Lstat *)
+      apply finish_ro. cbn [step]. unfold b_lstat.
+      exact (keeps_map_ex _ (a_lstat base n) ObInfo w (ro_call_spec _ w HI (lstat_framed w n Hq Hwf Hn))).
+    - (* Readlink *)
+      apply finish_ro. cbn [step]. unfold b_readlink.
+      exact (keeps_map_ex _ (a_readlink base n) ObStr w
+               (ro_call_spec _ w HI (law2_readlink _ _ _ _ _ _ _ Lb2 w n Hq Hwf Hn))).
+    - (* Read *)
+      apply finish_ro. cbn [step].
+      change (b_open base backup n) with (a_openfile base n 0 0).
+      apply (ro_handle_op_spec (fun h => read_all tree_fuel h []) ObData w n HI Hn).
+      intros h w1 Hopen w2 Hq2 Hwf2.
+      destruct (law2_ro_handle _ _ _ _ _ _ _ Lb2 w n h w1 Hq Hwf Hn Hopen w2 Hq2 Hwf2) as (Hrd & _).
+      exact (Hrd []).
+    - (* Readdir *)
+      apply finish_ro. cbn [step].
+      change (b_open base backup n) with (a_openfile base n 0 0).
+      apply (ro_handle_op_spec hreaddirnames (fun l => ObNames (sort_strings l)) w n HI Hn).
+      intros h w1 Hopen w2 Hq2 Hwf2.
+      destruct (law2_ro_handle _ _ _ _ _ _ _ Lb2 w n h w1 Hq Hwf Hn Hopen w2 Hq2 Hwf2) as (_ & Hls & _).
+      exact Hls.
   Qed.
 
 End Try.
@@ -1237,10 +1973,10 @@ Theorem step_spec :
   step_stmt base backup Vb Vk tnb tnk accb acck rhb rhk whb whk B0.
 Proof.
   intros base backup Vb Vk tnb tnk accb acck rhb rhk whb whk B0.
-  unfold step_stmt. cbv zeta. intros HLb HLk Hlinks Hsmall HwfB0 o w HI Hcov.
+  unfold step_stmt. cbv zeta. intros HLb HLb2 HLk Hlinks Hsmall HwfB0 o w HI Hcov.
   destruct (step_specS base backup Vb Vk tnb tnk accb acck rhb rhk whb whk B0
-              HLb HLk Hlinks Hsmall HwfB0 o w HI Hcov)
-    as (r & w' & Hrun & Hnh & Hinv & Hext & _).
+              HLb HLk Hlinks Hsmall HwfB0 HLb2 o w HI Hcov)
+    as (r & w' & Hrun & Hnh & Hinv & Hext).
   exists r, w'. split; [exact Hrun |]. split; [exact Hnh |]. split; [exact Hinv | exact Hext].
 Qed.
 
